@@ -110,3 +110,20 @@ func (c *SRPClient) VerifyM2(m2 []byte) bool {
 
 // SRPModulus returns N (for building invalid public keys such as A = N).
 func SRPModulus() *big.Int { return new(big.Int).Set(srpN) }
+
+// H512 is SHA-512 of the concatenation of its arguments.
+func H512(parts ...[]byte) []byte { return h512(parts...) }
+
+// SRPProofPublic computes the client proof M1 from public values and a given session key:
+// what a peer without the password can compute when the server's key degenerates
+// (A = 0 mod N). abytes is the byte string the server hashes for A.
+func SRPProofPublic(salt, abytes, B, K []byte) []byte {
+	hn := h512(srpN.Bytes())
+	hg := h512(srpG.Bytes())
+	x1 := make([]byte, len(hn))
+	for i := range hn {
+		x1[i] = hn[i] ^ hg[i]
+	}
+	Bm := new(big.Int).SetBytes(B).Bytes()
+	return h512(x1, h512([]byte(srpUser)), salt, abytes, Bm, K)
+}
